@@ -1487,41 +1487,6 @@ func (h *c10Hist) newBitmaps() map[string]string {
 	return res
 }
 
-// Probe (outside the property's history alphabet, reported as a note): the tail of
-// ControlPlane.RebuildReloadDatapath — clearReloadDomainRoutingMap on a generation whose tracker is already
-// populated, then CloneDnsCache + RestoreReloadCache.  BuildKernspace in between needs real BPF objects and is skipped.
-func c10RollbackProbe(obs *c10Observer, stats *VStats) string {
-	w := c10NewCacheWorld(obs, stats, false, 0, 0)
-	bm := c10ParseBits("3.40", 32)
-	put := func(k c10Key, ans ...string) {
-		var rrs []dnsmessage.RR
-		for _, a := range ans {
-			rrs = append(rrs, c10MakeAns(a, k.name))
-		}
-		w.matcher.next = bm
-		if err := w.ctrl.UpdateDnsCacheTtlWithKey(k.key(), k.name, k.qtype, rrs, nil, nil, 300); err != nil {
-			panic(err)
-		}
-	}
-	put(c10Key{"a.com.", dnsmessage.TypeA, ""}, "4:01020304", "4:0a000001")
-	put(c10Key{"b.com.", dnsmessage.TypeA, ""}, "4:01020304")
-	before, _ := w.mirror()
-	nBefore := len(obs.shadow)
-	obs.takeCalls()
-	if err := clearReloadDomainRoutingMap(w.core.bpf.Load()); err != nil {
-		return "rollback clear-failed:" + err.Error()
-	}
-	cache := w.ctrl.CloneCacheForReload()
-	w.ctrl.RestoreReloadCache(cache, func(string) []uint32 { return bm }, time.Now())
-	for len(w.ctrl.bpfUpdateCh) > 0 {
-		w.ctrl.processBpfUpdateTask(<-w.ctrl.bpfUpdateCh, false)
-	}
-	calls := obs.takeCalls()
-	after, n := w.mirror()
-	return fmt.Sprintf("rollback before_mirror=%s before_table=%d cache=%d after_mirror=%s after_table=%d %s",
-		c10B(before), nBefore, n, c10B(after), len(obs.shadow), calls)
-}
-
 // Probe (inside the property): a reload with more cached entries than the refresh queue has slots (1024).
 func c10BigReloadProbe(obs *c10Observer, stats *VStats) string {
 	w := c10NewCacheWorld(obs, stats, false, 0, 0)
@@ -1610,7 +1575,6 @@ func TestVerifC10(t *testing.T) {
 			_ = os.WriteFile(filepath.Join(VOutDir(), name), []byte(line+"\n"), 0o644)
 		})
 	}
-	probe("c10.rollback.txt", c10RollbackProbe)
 	probe("c10.race.txt", c10RaceProbe)
 	probe("c10.bigreload.txt", c10BigReloadProbe)
 	stats.Write("c10")
